@@ -219,6 +219,11 @@ theorem genResolve_qual (G : Dkg.Grp) (st : GenSt) (I : Inbox) (st' : GenSt) (I'
     rw [hg] at h
     simp only at h
     refine ⟨I1, s, sp, cm, rfl, ?_⟩
+    cases hgs : gaList G s with
+    | error e => rw [hgs] at h; cases h
+    | ok gs =>
+    rw [hgs] at h
+    simp only at h
     split at h
     · simp only [pure, Except.pure, Except.ok.injEq, Prod.mk.injEq] at h
       obtain ⟨rfl, _⟩ := h
